@@ -71,7 +71,7 @@ Proof.
     set (w1 := sched_local g i _ w). assert (K1 : Cv w w1) by apply Cv_sched_local.
     destruct (negb (ok w1)); auto.
     match goal with |- Cv w (if ?b then sched_at d T pg pn ?wh ?w2 else _) => assert (K2 : Cv w w2) end.
-    { destruct (g_started (gat g w1) && negb (g_evaluating (gat g w1)) && (Z.max when (now_of pg w) <? g_nst (gat g w1))) eqn:E; auto.
+    { destruct (g_started (gat g w1) && negb (g_evaluating (gat g w1)) && (Z.max (Z.max when (now_of pg w)) (now_of 0 w) <? g_nst (gat g w1))) eqn:E; auto.
       eapply Cv_trans; eauto. apply Cv_lower. lia. }
     destruct (g_started _ && negb _); auto. eapply Cv_trans; eauto.
 Qed.
@@ -143,6 +143,9 @@ Proof.
   induction bs as [|b r IH]; intros w; simpl; [apply Cv_refl|].
   eapply Cv_trans; [|apply IH]. destruct (match nth_error _ _ with Some _ => _ | None => _ end); [apply Cv_sched_at|apply Cv_refl].
 Qed.
+
+Lemma Cv_sampled_if b T child now bs w : Cv w (sampled_if b T child now bs w).
+Proof. unfold sampled_if. destruct b; [apply Cv_sampled|apply Cv_refl]. Qed.
 
 Lemma Cv_pull T g i child w : Cv w (pull T g i child w).
 Proof. unfold pull. destruct (_ =? _); [apply Cv_refl|apply Cv_sched_at]. Qed.
@@ -583,7 +586,7 @@ Section START_INV.
       destruct (negb (ok _)); [split; auto|].
       match goal with |- Below _ w (if negb (ok ?w3) then _ else _) /\ _ =>
         assert (K3 : Keep (sc (c_child (ncfg_at T g i)) (now_of g w) w) w3 /\ Cv (sc (c_child (ncfg_at T g i)) (now_of g w) w) w3) end.
-      { split; [eapply Keep_trans; [apply Keep_sampled|apply Keep_pull]|eapply Cv_trans; [apply Cv_sampled|apply Cv_pull]]. }
+      { split; [eapply Keep_trans; [apply Keep_sampled_if|apply Keep_pull]|eapply Cv_trans; [apply Cv_sampled_if|apply Cv_pull]]. }
       destruct K3 as [K3 V3].
       destruct (negb (ok _)).
       + split; [eapply Below_trans; [exact B'|apply Below_KeepCv; auto]|destruct K3 as [K3 _]; congruence].
@@ -614,8 +617,8 @@ Section START_INV.
         - eapply has_parent_in_range; eauto. }
       destruct G1 as (C1 & Q1 & _).
       match type of Hok with ok (if negb (ok ?ww) then _ else _) = true => set (w3 := ww) in * end.
-      assert (K3 : Keep w1 w3) by (eapply Keep_trans; [apply Keep_sampled|apply Keep_pull]).
-      assert (V3 : Cv w1 w3) by (eapply Cv_trans; [apply Cv_sampled|apply Cv_pull]).
+      assert (K3 : Keep w1 w3) by (eapply Keep_trans; [apply Keep_sampled_if|apply Keep_pull]).
+      assert (V3 : Cv w1 w3) by (eapply Cv_trans; [apply Cv_sampled_if|apply Cv_pull]).
       assert (Q3 : Quiet (S g) w3).
       { eapply Quiet_Keep; eauto. intros a Ha. destruct (le_lt_dec c a); [apply Q1; auto|].
         destruct (B a l) as (_ & _ & Ev & _). rewrite Ev. apply Q; lia. }
